@@ -59,7 +59,19 @@ func c04Judge(c *Ctx, cs *Case) {
 		}
 		return
 	}
-	v, m, _ := stdJudge(c, cs, RunOpts{}, JudgeOpts{})
+	var v string
+	var m *ModelOut
+	if cs.Gen == "long-call-histories" {
+		m = RunModel(cs.Src, "", false, 200000000)
+		if m.Res == nil || m.Res.OOD != "" {
+			c.Count("skipped_out_of_domain", 1)
+			return
+		}
+		o := RunLib(cs.Src, RunOpts{MaxSteps: int64(3*m.Res.Steps + 10000)})
+		v = CompareModel(c, m, o, JudgeOpts{})
+	} else {
+		v, m, _ = stdJudge(c, cs, RunOpts{}, JudgeOpts{})
+	}
 	if v == "" && m.Res != nil {
 		st := m.Res.Stats
 		if st.Calls > 0 {
@@ -204,11 +216,13 @@ func c04Run(c *Ctx) {
 	// references (variable, array element, object property) while its name is
 	// reassigned / shadowed; calls through every reference; reads of the name
 	{
-		pre := Lines(Var("h", "nil"), Var("arr", "[nil]"), Var("ob", "{}"))
+		// viaf calls whatever the name f denotes at the time of the call, from one and the same call expression
+		pre := Lines(Var("h", "nil"), Var("arr", "[nil]"), Var("ob", "{}"), Fun("g2", "x", " "+Print(`"g2-body " + x`)+" "+Ret("x * 2")+" "), Fun("viaf", "x", " "+Ret("f(x)")+" "))
 		evs := []string{
 			Fun("f", "x", " "+Print(`"f-body " + x`)+" "+Ret("x")+" "),
 			"h = f;", "f = %f;", Print("f(%f)"), Print("h(%f)"), Print("f"), Print("h"),
 			"arr[0] = f;", Print("arr[0](%f)"), "ob.m = f;", Print("ob.m(%f)"), "{", "}", Var("f", "%f"),
+			Print("viaf(%f)"), "f = g2;",
 		}
 		maxLen := c.N(4, 5)
 		seq := []int{0}
@@ -250,6 +264,22 @@ func c04Run(c *Ctx) {
 			}
 		}
 		rc(0)
+	}
+	// 4c. long call histories: a call is correct however many calls (of built-ins, of user functions,
+	// finished or still active) the run has already made
+	for _, n := range []int{c.N(150000, 2500000), c.N(70000, 1100000)} {
+		N := fmt.Sprint(n)
+		for _, src := range []string{
+			Lines(Fun("sq", "x", " "+Ret("x * x")+" "), Var("i", "0"), Var("s", "0"), While("i < "+N, "{ s = s + "+BI("abs", "-1")+"; i = i + 1; }"), Print("s"), Print(BI("len", "[1, 2]")), Print("sq(7)")),
+			Lines(Fun("sq", "x", " "+Ret("x * x")+" "), Var("arr", "[1, 2, 3]"), Var("i", "0"), Var("s", "0"), For(";", "i < "+N, "i = i + 1", "{ "+If("i < "+BI("len", "arr"), "{ s = s + arr[i]; }")+" }"), Print("s"), Print("sq(3)"), Print(BI("max", "1", "2"))),
+			Lines(Fun("one", "", " "+Ret("1")+" "), Var("i", "0"), Var("s", "0"), While("i < "+N, "{ s = s + one(); i = i + 1; }"), Print("s"), Print(BI("abs", "-2")), Print("one()")),
+			Lines(Fun("mk", "", " "+Var("n", "0")+" "+Fun("up", "", " n = n + 1; "+Ret("n")+" ")+" "+Ret("up")+" "), Var("c1", "mk()"), Var("i", "0"), While("i < "+N, "{ c1(); i = i + 1; }"), Print("c1()"), Var("c2", "mk()"), Print("c2()")),
+			Lines(Fun("f", "a, b", " "+Ret(BI("min", "a", "b"))+" "), Var("i", "0"), Var("s", "0"), While("i < "+N, "{ s = s + f(i, 1); i = i + 1; }"), Print("s"), Print("f(5, 4)")),
+		} {
+			if c.Mine() {
+				c04Judge(c, &Case{Gen: "long-call-histories", Src: src, X: map[string]string{"calls": N}})
+			}
+		}
 	}
 	// 5. random compositions
 	r := c.Rand("random")
@@ -295,6 +325,12 @@ func c04Handwritten() []string {
 		Lines(Var("pos", "0"), Fun("find", "", " "+For("pos = 0;", "pos < 5", "pos = pos + 1", "{ "+If("pos == 1", Ret("pos"))+" }")+" "+Ret("-1")+" "), Print("find()"), Print("pos")),
 		Lines(Var("ticks", "0"), Fun("tick", "", " ticks = ticks + 1; "+Ret("ticks")+" "), Fun("g", "", " "+For(Var("i", "0"), "i < 9", "i = tick()", "{ "+If("i == 3", Ret(`"found"`))+" }")+" "+Ret(`"none"`)+" "), Print("g()"), Print("ticks")),
 		Lines(Fun("g", "", " "+Var("n", "0")+" "+For(";", "", "n = n + 1", "{ "+If("n == 2", "{ "+Ret("n")+" }")+" }")+" "), Print("g()")),
+		// one call expression executed several times while what its callee name denotes changes in between
+		Lines(Fun("greet", "", " "+Ret(`"hi"`)+" "), Fun("other", "", " "+Ret(`"yo"`)+" "), Fun("run", "", " "+Ret("greet()")+" "), Print("run()"), "greet = other;", Print("run()"), "greet = 7;", Print(`"before"`), Print("run()"), Print(`"AFTER"`)),
+		Lines(Fun("plus", "a", " "+Ret("a + 1")+" "), Fun("times", "a", " "+Ret("a * 3")+" "), Var("acc", "1"), For(Var("i", "0"), "i < 4", "i = i + 1", "{ acc = plus(acc); "+If("i == 1", "{ plus = times; }")+" }"), Print("acc")),
+		Lines(Fun("twice", "x", " "+Ret("x * 2")+" "), Fun("square", "x", " "+Ret("x * x")+" "), Fun("apply", "twice, v", " "+Ret("twice(v)")+" "), Print("apply(twice, 5)"), Print("apply(square, 5)"), Print("apply(twice, 6)")),
+		Lines(Fun("f", "", " "+Ret("1")+" "), Fun("call", "", " "+Ret("f()")+" "), Print("call()"), "{ "+Var("f", "2")+" "+Print("call()")+" }", "f = nil;", Print("call()"), Print(`"AFTER"`)),
+		Lines(Fun("a", "", " "+Ret(`"a"`)+" "), Fun("b", "", " "+Ret(`"b"`)+" "), Var("k", "0"), While("k < 3", "{ "+Print("a()")+" "+Var("t", "a")+" a = b; b = t; k = k + 1; }")),
 		// parameters may be named like built-ins and are then called / read like any binding
 		Lines(Fun("apply", B["len"]+", x", " "+Ret(B["len"]+"(x)")+" "), Fun("twice", "v", " "+Ret("v * 2")+" "), Print("apply(twice, 21)"), Print(BI("len", "[1, 2, 3]"))),
 		Lines(Fun("f", B["abs"], " "+Fun("inner", "", " "+Ret(B["abs"]+"(5)")+" ")+" "+Ret("inner()")+" "), Fun("neg", "v", " "+Ret("0 - v")+" "), Print("f(neg)"), Print(BI("abs", "-5"))),
